@@ -6,6 +6,8 @@
 
      Load f | Reserve f | LoadAndDelete f | Delete f
      | CompareAndDelete f p                              sess.refs (a sync.Map, linearizable)
+     Snapshot | Pick visited must                        sess.refs.Range: the table when the iteration starts; the
+                                                         next key the iteration calls back for (or its end)
      Lock p | Unlock p                                   the sync.Mutex embedded in SFid p
      ReadSF p | WriteSF p g                              fields Ent/File/Mode of SFid p
      Fs c                                                a call into the FileSys/Dirent/File (two steps:
@@ -54,7 +56,7 @@ Definition R_PERM : N := 3.      Definition R_NOAUTH : N := 4.     Definition R_
 Definition R_NOTDIR : N := 6.    Definition R_NOFILE : N := 7.     Definition R_NOREAD : N := 8.
 Definition R_NOWRITE : N := 9.   Definition R_ALREADYOPEN : N := 10. Definition R_ILLEGALNAME : N := 11.
 Definition R_CREATENONDIR : N := 12. Definition R_FSERR : N := 13. Definition R_INVALID : N := 14.
-Definition R_PANIC : N := 15.
+Definition R_PANIC : N := 15.   Definition R_FUEL : N := 16.
 Record result := { r_cls : N; r_val : N }.
 
 Inductive prog :=
@@ -64,6 +66,8 @@ Inductive prog :=
 | LoadAndDelete (f : N) (k : option N -> prog)
 | Delete (f : N) (k : prog)
 | CompareAndDelete (f p : N) (k : bool -> prog)
+| Snapshot (k : list (N * N) -> prog)
+| Pick (visited : list N) (must : list (N * N)) (k : option (N * N) -> prog)
 | Lock (p : N) (k : prog)
 | Unlock (p : N) (k : prog)
 | ReadSF (p : N) (k : sfid -> prog)
@@ -338,7 +342,57 @@ Definition prog_statlike (kind f : N) : prog :=
         end
     end).
 
-(* ---- the operations of a client ---- *)
+(* ---- Stop (since fix e9fb232 it takes part in the lock protocol):
+     for again := true; again; { again = false
+       sess.refs.Range(func(fid, ref) bool { again = true
+         ref.Lock(); sess.refs.CompareAndDelete(fid, ref); if ref.Ent != nil { delRefAction(ctx, ref, false) }; ref.Unlock() }) }
+   sync.Map.Range is not a snapshot.  It walks the entries of the map's read-only part - which still holds
+   the entries of deleted keys - in an order of its own and calls back with each entry's CURRENT value: a key
+   deleted meanwhile is skipped, a key stored meanwhile is seen if its old entry was still there (observed on
+   the implementation: fid removed before Stop, re-bound while Stop waits, released in the same pass) and
+   not seen if it is new.  Model: [Snapshot] records the table when the pass starts; [Pick visited must]
+   lets the ENVIRONMENT choose the next callback - any key now in the table that this pass has not visited,
+   with its current value - or the end of the pass, which is allowed only when every key of the Snapshot that
+   still has its value has been visited.  The choice is taken from the operation's script like the outcome
+   of a FileSys call; the structural theorems hold for every answer.
+   Programs are finite trees, so the loop carries fuel: [n] bounds the callbacks over all passes; running out
+   returns the class R_FUEL, which the harness never sees (STOP_FUEL = 64) and which statements about
+   Stop's result must exclude. ---- *)
+Definition stop_visit (f q : N) (k : prog) : prog :=
+  Lock q (CompareAndDelete f q (fun _ =>
+    ReadSF q (fun s =>
+      match s_ent s with
+      | None => Unlock q k
+      | Some e =>
+          Fs (call K_CLUNK (Some q) (e_id e)) (fun _ =>
+            WriteSF q (fun s => {| s_ent := None; s_file := s_file s; s_mode := s_mode s |}) (Unlock q k))
+      end))).
+
+(* the rest of one pass; [again]: some callback ran; [next n again]: what follows the pass *)
+Fixpoint stop_pass (n : nat) (visited : list N) (must : list (N * N)) (again : bool)
+    (next : nat -> bool -> prog) : prog :=
+  Pick visited must (fun o =>
+    match o with
+    | None => next n again
+    | Some (f, q) =>
+        match n with
+        | O => ret R_FUEL 0
+        | S n' => stop_visit f q (stop_pass n' (f :: visited) must true next)
+        end
+    end).
+
+Fixpoint stop_loop (passes : nat) (n : nat) : prog :=
+  match passes with
+  | O => ret R_FUEL 0
+  | S passes' =>
+      Snapshot (fun l =>
+        stop_pass n nil l false (fun n' again => if again then stop_loop passes' n' else ret R_OK 0))
+  end.
+
+Definition STOP_FUEL : nat := 64.
+Definition prog_stop : prog := stop_loop (S STOP_FUEL) STOP_FUEL.
+
+(* ---- the operations of a client (and the server's Stop) ---- *)
 Inductive op :=
 | OpAuth (afid : N)
 | OpAttach (f afid : N)
@@ -346,7 +400,8 @@ Inductive op :=
 | OpOpen (f mode : N)
 | OpCreate (f : N) (badname : bool) (mode : N)
 | OpRead (f : N) | OpWrite (f : N) | OpStat (f : N) | OpWStat (f : N)
-| OpClunk (f : N) | OpRemove (f : N).
+| OpClunk (f : N) | OpRemove (f : N)
+| OpStop.
 
 Definition prog_of (reqauth : bool) (o : op) : prog :=
   match o with
@@ -361,6 +416,7 @@ Definition prog_of (reqauth : bool) (o : op) : prog :=
   | OpWStat f => prog_statlike K_WSTAT f
   | OpClunk f => prog_clunk f
   | OpRemove f => prog_remove f
+  | OpStop => prog_stop
   end.
 
 (* ================= the concurrent state and its step function ================= *)
@@ -404,6 +460,22 @@ Definition enc_sfid (s : sfid) : list N :=
 Definition enc_out (o : outcome) : list N :=
   match o with OErr => 0 :: nil | OOk n d => 1 :: n :: (if d then 1 else 0) :: nil end.
 
+(* the fid table as a list sorted by fid, and its n-th permutation (factorial number system) *)
+Fixpoint insert_sorted (x : N * N) (l : list (N * N)) : list (N * N) :=
+  match l with
+  | nil => x :: nil
+  | y :: r => if fst x <=? fst y then x :: l else y :: insert_sorted x r
+  end.
+Definition sort_pairs (l : list (N * N)) : list (N * N) := fold_right insert_sorted nil l.
+
+Definition pick_cands (r : gmap N N) (visited : list N) : list (N * N) :=
+  filter (fun fp => negb (existsb (N.eqb (fst fp)) visited)) (sort_pairs (map_to_list r)).
+Definition pick_may_end (r : gmap N N) (visited : list N) (must : list (N * N)) : bool :=
+  forallb (fun fp => existsb (N.eqb (fst fp)) visited ||
+                     negb (match r !! fst fp with Some q => q =? snd fp | None => false end)) must.
+
+Definition enc_pairs (l : list (N * N)) : list N := N.of_nat (length l) :: flat_map (fun fp => fst fp :: snd fp :: nil) l.
+
 Definition upd (th : thread) (k : prog) (lg : list N) : thread :=
   {| t_id := t_id th; t_prog := k; t_incall := false; t_script := t_script th; t_ncalls := t_ncalls th;
      t_calls := t_calls th; t_held := t_held th; t_log := lg ++ t_log th |}.
@@ -443,6 +515,23 @@ Definition step (s : state) (i : nat) : option state :=
           let hit := match refs s !! f with Some q => q =? p | None => false end in
           Some {| refs := if hit then delete f (refs s) else refs s; heap := heap s; owner := owner s; nextp := nextp s;
                   threads := <[i := upd th (k hit) ((if hit then 1 else 0) :: nil)]> (threads s) |}
+      | Snapshot k =>
+          let tab := sort_pairs (map_to_list (refs s)) in
+          Some (set_thread s i (upd th (k tab) (enc_pairs tab)))
+      | Pick visited must k =>
+          (* the next callback of Range, or its end, is the environment's choice: script head OOk c _ = the
+             c-th candidate (c >= 1) or the end (c = 0, when permitted) *)
+          let cands := pick_cands (refs s) visited in
+          let c := match hd OErr (t_script th) with OOk c _ => c | OErr => 0 end in
+          let o := match cands with
+                   | nil => None
+                   | x :: _ => if (c =? 0) && pick_may_end (refs s) visited must then None
+                               else Some (nth (N.to_nat (c - 1)) cands x)
+                   end in
+          Some (set_thread s i
+            {| t_id := t_id th; t_prog := k o; t_incall := false; t_script := tl (t_script th);
+               t_ncalls := t_ncalls th; t_calls := t_calls th; t_held := t_held th;
+               t_log := match o with None => 0 :: nil | Some fq => 1 :: fst fq :: snd fq :: nil end ++ t_log th |})
       | Lock p k =>
           match owner s !! p with
           | Some _ => None
@@ -505,7 +594,7 @@ Record hop := {
 }.
 
 (* the session between operations: fid table, SFid fields, mutexes (a leaked lock stays) *)
-Definition seq_fuel : nat := 64.
+Definition seq_fuel : nat := 1500.
 Definition seq_op (reqauth : bool) (s : state) (h : hop) : state * option (result * list (N * N)) :=
   let s1 := {| refs := refs s; heap := heap s; owner := owner s; nextp := nextp s;
                threads := mk_thread reqauth (h_id h) (h_op h, h_script h) :: nil |} in
